@@ -18,12 +18,25 @@ func (p *Path) zeroResultsOf(fn *ssa.Function) Value {
 
 func (e *Engine) makeOverride(name, spec string) (intrinsic, error) {
 	switch {
+	case spec == "skip" && strings.HasPrefix(name, "go:"):
+		// marker consulted by goStmt: the goroutine is not executed
+		return func(p *Path, fn *ssa.Function, a []Value) Value { return nil }, nil
 	case spec == "noop":
 		return func(p *Path, fn *ssa.Function, a []Value) Value { return p.zeroResultsOf(fn) }, nil
 	case spec == "opaque":
 		return func(p *Path, fn *ssa.Function, a []Value) Value { return Opaque{name} }, nil
 	case spec == "real":
 		return func(p *Path, fn *ssa.Function, a []Value) Value { return p.callBody(fn, a) }, nil
+	case strings.HasPrefix(spec, "before:"):
+		// run a harness hook with the same arguments, then the real body
+		target, err := e.findFunc(strings.TrimPrefix(spec, "before:"))
+		if err != nil {
+			return nil, fmt.Errorf("override %s: %v", name, err)
+		}
+		return func(p *Path, fn *ssa.Function, a []Value) Value {
+			p.callFunction(target, a, nil)
+			return p.callBody(fn, a)
+		}, nil
 	case strings.HasPrefix(spec, "redirect:"):
 		target, err := e.findFunc(strings.TrimPrefix(spec, "redirect:"))
 		if err != nil {
@@ -169,6 +182,7 @@ func init() {
 			}
 			if !t.IsConst() {
 				p.assertPC(p.tt.ULt(t, BVConst(pow2(bits), p.bigW())))
+				p.setNonneg(t)
 			}
 		} else {
 			t = p.newInput(name, "big", IntSort)
